@@ -42,10 +42,11 @@ const (
 	KYield
 	KJoin
 	KChanLen
+	KQuiesce
 )
 
 var kindNames = [...]string{"start", "lock", "unlock", "rlock", "runlock", "cond.wait", "cond.wake", "signal", "broadcast",
-	"once", "wg.add", "wg.wait", "atomic", "send", "recv", "close", "select", "cancel", "ctx.err", "sleep", "pool", "map", "yield", "join", "chan.len"}
+	"once", "wg.add", "wg.wait", "atomic", "send", "recv", "close", "select", "cancel", "ctx.err", "sleep", "pool", "map", "yield", "join", "chan.len", "quiesce"}
 
 func (k Kind) String() string { return kindNames[k] }
 
@@ -74,13 +75,15 @@ type thread struct {
 	vc      VC
 	parked  string // site where the thread was found parked (filled at abort)
 	joiners int
+	lastRun int
 }
 
 // Obj is the identity of a synchronisation object inside one execution.
 type Obj struct {
-	id   int
-	kind string
-	vc   VC
+	id    int
+	kind  string
+	vc    VC
+	State func() uint64 // scheduler-visible state (spin detector); may be nil
 }
 
 // ThreadInfo describes a thread that did not finish.
@@ -138,12 +141,15 @@ type Exec struct {
 	now        time.Time
 	lastProg   int
 	sigSeen    map[uint64]int
+	sigStep    map[uint64]int
 	spinOff    bool
 	shadow     map[uintptr]*shadow
 	raceOn     bool
 	contended  bool
 	forced     int
 	freeForced bool
+	objList    []*Obj
+	quiet      bool // a spin cycle (or true quiescence) lets Quiesce() proceed
 	nondet     string
 }
 
@@ -159,7 +165,9 @@ func newObj(kind string) *Obj {
 		return &Obj{kind: kind}
 	}
 	X.objs++
-	return &Obj{id: X.objs, kind: kind}
+	o := &Obj{id: X.objs, kind: kind}
+	X.objList = append(X.objList, o)
+	return o
 }
 
 // NewObj registers a synchronisation object (used by the shim packages).
@@ -205,6 +213,7 @@ func Point(kind Kind, obj *Obj, en func() bool) {
 		runtime.Goexit()
 	}
 	x.steps++
+	t.lastRun = x.steps
 	x.mix(t.id, int(kind), obj.ID())
 	if x.statesFn != nil {
 		x.statesFn(x.hash)
@@ -253,14 +262,22 @@ func (x *Exec) reschedule(t *thread) {
 			idx = x.choose(len(opts), selfFirst || !x.freeForced, false)
 			x.contended = true
 		}
+		next := opts[idx]
 		if !selfFirst {
 			x.forced++
 			if !x.spinOff && x.spinCheck() {
-				x.finish(Spin, t)
-				return
+				if q := x.quiescer(); q != nil {
+					// the other threads only spin: this is quiescence for the harness
+					x.quiet = true
+					x.sigSeen, x.sigStep = nil, nil
+					x.lastProg = x.steps
+					next = q
+				} else {
+					x.finish(Spin, t)
+					return
+				}
 			}
 		}
-		next := opts[idx]
 		if next == t {
 			return
 		}
@@ -390,6 +407,39 @@ func (x *Exec) exit(t *thread) {
 	x.reschedule(t)
 }
 
+func (x *Exec) quiescer() *thread {
+	for _, t := range x.threads {
+		if !t.done && t.kind == KQuiesce && t.en != nil {
+			return t
+		}
+	}
+	return nil
+}
+
+// Quiesce blocks the caller until no other thread can make progress: every
+// other thread is finished, blocked, or only spinning in a cycle that changes
+// nothing (e.g. two waiters that signal each other before parking again).
+func Quiesce() {
+	x := X
+	if x == nil {
+		return
+	}
+	me := x.cur
+	Point(KQuiesce, nil, func() bool {
+		if x.quiet {
+			return true
+		}
+		for _, o := range x.threads {
+			if o != me && o.enabled() {
+				return false
+			}
+		}
+		return len(x.timers) == 0
+	})
+	x.quiet = false
+	Progress()
+}
+
 // Yield is an explicit scheduling point (for spin loops in harness code).
 func Yield() { Point(KYield, nil, nil) }
 
@@ -397,7 +447,7 @@ func Yield() { Point(KYield, nil, nil) }
 func Progress() {
 	if X != nil {
 		X.lastProg = X.steps
-		X.sigSeen = nil
+		X.sigSeen, X.sigStep = nil, nil
 	}
 }
 
